@@ -23,6 +23,12 @@ def check(tier="quick", seed=0, workers=None, only=None):
     total.merge_from(cst)
     total.samples = cst.samples[:4] + st.samples[:2]
     viols = common.collect(total, (PID,))
+    # "transparently re-sent": the second transmission is the caller's request (its body as well); this check's scenarios only re-send
+    # requests whose body is a bytes object, which can be sent any number of times
+    for v in common.collect(total, ("C03",)):
+        if v["oracle"] == "C03.transmission-body" and v["signature"].get("resend"):
+            viols.append(dict(v, oracle="C14.resend-differs", signature=dict(v["signature"], kind="resend-differs"),
+                              message="the transparent re-send after GOAWAY is not the caller's request: " + v["message"]))
     cov = evidence.stats_coverage(
         total,
         rule=("sequential: every op x fault kind x connection type x variant; concurrent: all event orders of 1-3 callers with one fault, HTTP/1.1-fallback races, and "
